@@ -475,3 +475,180 @@ func (e *Engine) Liveness(maxStates int, strategies []string, allPhases bool) *L
 	res.Skipped, res.Extensions = int(skipped), int(exts)
 	return res
 }
+
+// ---------------------------------------------------------------- liveness from a height entered by node sync
+
+// SyncLiveCase = one run of LiveAfterSync.
+type SyncLiveCase struct {
+	Config string
+	Silent []int
+	Synced []int // members that enter height 2 by sync; the others commit height 1 themselves
+	OK     bool
+	Why    string
+	Steps  int
+	Log    []string
+}
+
+// LiveAfterSync (C05 "from any reachable protocol state left by earlier asynchrony", here: a height entered by node
+// sync): the correct members of committee c reach height 2 — those in `synced` by UpdateState(block 1), the rest by
+// committing height 1 themselves — the members in `silent` never send anything. From then on every message is
+// delivered before any timer fires (FIFO). A member that entered by sync may not lead view 0 of height 2, so the
+// height can only be decided after election timeouts: every deciding correct member must still commit height 2
+// within 2n views.
+func LiveAfterSync(name string, c kit.Committee, silent []int, synced []int) SyncLiveCase {
+	res := SyncLiveCase{Config: name, Silent: silent, Synced: synced}
+	w := NewWorld(c, false, nil)
+	isSilent := map[int]bool{}
+	for _, s := range silent {
+		isSilent[s] = true
+	}
+	isSynced := map[int]bool{}
+	for _, s := range synced {
+		isSynced[s] = true
+	}
+	nodes := map[int]*LNode{}
+	var order []int
+	for i := range c {
+		if !isSilent[i] {
+			nodes[i] = NewLNode(w, i)
+			order = append(order, i)
+		}
+	}
+	logf := func(format string, a ...interface{}) { res.Log = append(res.Log, fmt.Sprintf(format, a...)) }
+	type fl struct {
+		raw *interfaces.ConsensusRawMessage
+		to  int
+	}
+	var queue []fl
+	var clock int64
+	deadline := map[int]int64{}
+	regs := map[int]int{}
+	target := uint64(1)
+	absorb := func(i int, obs StepObs) {
+		n := nodes[i]
+		for _, o := range obs.Outs {
+			for _, t := range o.To {
+				if nodes[t] != nil {
+					queue = append(queue, fl{o.Raw, t})
+				}
+			}
+		}
+		for _, v := range obs.Viol {
+			if v.Prop == "C12" {
+				res.Why = v.Detail
+			}
+		}
+		if n.Trig.Regs != regs[i] {
+			regs[i] = n.Trig.Regs
+			if _, v, armed := n.Trig.Armed(); armed {
+				deadline[i] = clock + liveBase<<minU64(v, 40)
+			} else {
+				deadline[i] = -1
+			}
+		}
+		res.Steps++
+	}
+	committed := func(i int, h uint64) bool {
+		for _, cm := range nodes[i].Commits {
+			if cm.Height == h {
+				return true
+			}
+		}
+		return false
+	}
+	run := func(horizonViews uint64) (bool, string) {
+		for iter := 0; iter < 20000; iter++ {
+			all := true
+			for _, i := range order {
+				if !committed(i, target) && uint64(nodes[i].V.S.Height()) <= target && nodes[i].Dead == "" {
+					all = false
+				}
+			}
+			if all {
+				return true, ""
+			}
+			if len(queue) > 0 {
+				f := queue[0]
+				queue = queue[1:]
+				clock++
+				absorb(f.to, nodes[f.to].Step(Event{Kind: 'd'}, f.raw, ref.Parse(f.raw), nil))
+				continue
+			}
+			best, bd := -1, int64(-1)
+			for _, i := range order {
+				if d, ok := deadline[i]; ok && d >= 0 && uint64(nodes[i].V.S.Height()) == target && !committed(i, target) && (best < 0 || d < bd) {
+					best, bd = i, d
+				}
+			}
+			if best < 0 {
+				return false, fmt.Sprintf("height %d: no message in flight and no election timer armed at any deciding correct member, but not every one of them has committed", target)
+			}
+			if uint64(nodes[best].V.S.View()) >= horizonViews {
+				return false, fmt.Sprintf("height %d not committed by view %d", target, horizonViews)
+			}
+			clock = bd
+			logf("t=%d timeout at n%d (h%d,v%d)", clock, best, nodes[best].V.S.Height(), nodes[best].V.S.View())
+			deadline[best] = -1
+			absorb(best, nodes[best].Step(Event{Kind: 't'}, nil, ref.Info{}, nil))
+		}
+		return false, "iteration cap"
+	}
+	for _, i := range order {
+		absorb(i, nodes[i].Start())
+	}
+	// height 1: the members that are not synced decide it among themselves if they can; whoever commits provides the block
+	var blk interfaces.Block
+	var proof []byte
+	self := map[string]bool{}
+	for _, i := range order {
+		if !isSynced[i] {
+			self[string(c[i].ID)] = true
+		}
+	}
+	if w.R.IsQuorum(self) {
+		// deliver height-1 traffic only among the non-synced members
+		keep := queue[:0]
+		for _, f := range queue {
+			if !isSynced[f.to] {
+				keep = append(keep, f)
+			}
+		}
+		queue = keep
+		saved := order
+		var sub []int
+		for _, i := range order {
+			if !isSynced[i] {
+				sub = append(sub, i)
+			}
+		}
+		order = sub
+		if ok, why := run(2 * uint64(len(c))); !ok {
+			res.Why = "setup: the non-synced members did not commit height 1: " + why
+			return res
+		}
+		order = saved
+		for _, i := range sub {
+			if len(nodes[i].Blocks) > 0 {
+				blk, proof = nodes[i].Blocks[0], nodes[i].Proofs[0]
+			}
+		}
+		// traffic the committers already sent for height 2 stays in flight; messages to synced members were never delivered
+	}
+	if blk == nil { // nobody could decide height 1 alone: everybody is synced
+		blk = kit.NewBlock(1, "SYNCED")
+		proof = nil
+		queue = nil
+		for _, i := range order {
+			isSynced[i] = true
+		}
+	}
+	for _, i := range order {
+		if isSynced[i] {
+			logf("n%d: UpdateState(block 1)", i)
+			absorb(i, nodes[i].Step(Event{Kind: 's'}, nil, ref.Info{}, &SyncArg{Block: blk, Proof: proof}))
+		}
+	}
+	target = 2
+	res.OK, res.Why = run(2 * uint64(len(c)))
+	return res
+}
